@@ -335,6 +335,92 @@ def selected (ft : FTree) (t : Txn) (k : Kind) : List Flow :=
   (lookupFlow ft.tree t.parts).flatMap fun v =>
     ((ft.store.getD v .empty).group k).filter fun f => flowValid f t
 
+/-! ### quota system flows (resources/quota: `quota_loader.go`, `quota_resource.go`; `Filter.ToComparable`) -/
+
+/-- byte-wise `<=` on strings (`sort.Strings`; ASCII) -/
+def leChars : List Char → List Char → Bool
+  | [], _ => true
+  | _ :: _, [] => false
+  | x :: xs, y :: ys => x.toNat < y.toNat || (x == y && leChars xs ys)
+
+def strLe (a b : String) : Bool := leChars a.toList b.toList
+
+def insertBy {α : Type} (le : α → α → Bool) (a : α) : List α → List α
+  | [] => [a]
+  | b :: l => if le a b then a :: b :: l else b :: insertBy le a l
+
+/-- a sort (insertion sort: structural, so that closed instances evaluate) -/
+def sortBy {α : Type} (le : α → α → Bool) : List α → List α
+  | [] => []
+  | a :: l => insertBy le a (sortBy le l)
+
+def pairLe (a b : String × String) : Bool :=
+  if a.1 == b.1 then strLe a.2 b.2 else strLe a.1 b.1
+
+/-- `publictypes.ComparableFilter`.  The code renders every component as ONE string — the sorted tokens joined
+    with `,`, a header/query item as `key=value` — which identifies the sorted token list as long as no token
+    contains `,` and no key contains `=` (front-end fact; the generator's tokens are free of both).  The model
+    keeps the sorted token lists themselves. -/
+structure CompKey where
+  url : String
+  query : List (String × String)
+  method : List String
+  headers : List (String × String)
+  status : List Nat
+deriving DecidableEq, Repr
+
+/-- `Filter.ToComparable()`: the raw URL; `key=value` items (an ABSENT value reads as `""`:
+    `GetParamValue().GetString()`), methods and status codes, each sorted. -/
+def compKey (f : Flow) : CompKey :=
+  { url := f.url
+    query := sortBy pairLe (f.query.map fun kv => (kv.1, kv.2.getD ""))
+    method := sortBy strLe f.methods
+    headers := sortBy pairLe f.headers
+    status := sortBy (fun a b => decide (a ≤ b)) f.statuses }
+
+/-- One system-flow representation of the loader: the quota that created it (its filter and id are kept) and
+    the ids of all quotas folded into it. -/
+structure QGroup where
+  rep : Flow
+  members : List String
+deriving Repr
+
+/-- `Loader.loadQuotaResources`: `flowData[key]` is created by the first quota with that key; a later quota with
+    the same key is folded in (`AddSystemRepresentation`). -/
+def addQuota : List QGroup → Flow → List QGroup
+  | [], q => [⟨q, [q.name]⟩]
+  | g :: rest, q =>
+    if compKey g.rep = compKey q then { g with members := g.members ++ [q.name] } :: rest
+    else g :: addQuota rest q
+
+def groupQuotas (qs : List Flow) : List QGroup := qs.foldl addQuota []
+
+def sysFlowName (id : String) (k : Kind) : String :=
+  String.ofList ("SystemFlow_".toList ++ id.toList ++ (match k with
+    | .sysStart => "_SYSTEM_FLOW_START"
+    | .sysEnd => "_SYSTEM_FLOW_END"
+    | .user => "_USER_FLOW").toList)
+
+/-- The generated system flows (`GenerateSystemFlowStart/End`: both carry the representation's filter), each with
+    the quota ids wired into it, in the order the harness registers them (sorted by name). -/
+def quotaSysFlows (qs : List Flow) : List (Flow × List String) :=
+  ((groupQuotas qs).flatMap fun g =>
+    [({ g.rep with name := sysFlowName g.rep.name .sysEnd, kind := .sysEnd }, g.members),
+     ({ g.rep with name := sysFlowName g.rep.name .sysStart, kind := .sysStart }, g.members)]) |>
+    sortBy (fun a b => strLe a.1.name b.1.name)
+
+/-- The quota ids whose processors run for `t`: those wired into the selected system flows. -/
+def quotasRun (qs : List Flow) (t : Txn) : Except AddErr (List String) :=
+  let fl := quotaSysFlows qs
+  match build (fl.map (·.1)) with
+  | .error e => .error e
+  | .ok ft =>
+    match getFlow ft t with
+    | (some r, _) =>
+      .ok ((r.sysStart.flow ++ r.sysEnd.flow ++ r.user.flow).flatMap fun f =>
+        (fl.filter (fun x => x.1.name == f.name)).flatMap (·.2))
+    | (none, _) => .ok []
+
 /-- Names of the flows `Stream.ExecuteFlow` runs, in execution order: nothing at all when `GetFlow`
     reports `found = false`; else system-start, user, system-end flows (each group reversed on the
     response path).  Short-circuits and flow graphs are C04's. -/
